@@ -45,6 +45,10 @@ CHECKS = {
          "TLC enumerates variants of the universe schema (probe field type expression x base kind, deprecations with / without reason on objects and interfaces, @oneOf, implementors, union members, enum values, which root types exist) and rendering pairs {SDL, bare JSON, data-wrapped JSON} x type order x built-in scalars / introspection types listed x explicit / default / default-named-explicit roots x extensions folded (incl. `extend type ... implements`) x sparse JSON. For a kitchen-sink operation with variables of input types and sampled ProgGen operations, under three option sets, both renderings must give the identical token stream or the identical error.",
          "Trusted: TLC, tools/render.py (the two renderers are the projection: a rendering bug would show up as a disagreement, i.e. a false alarm, not a miss). The relation is between two outputs of the real code.",
          "DESIGN.md §5 C07", "model_checking"),
+ "C17": ("TLA+ call-stack model of the generator's recursive graph walks (Walks.tla) model-checked by TLC on every directed graph (bounded stack and termination with a visited set; the unbounded stack without one); TLC's graphs turned into adversarial spread / input-type cycles and, with nesting, odd abstract types and broken texts, run through the real generator one isolated process per input",
+         "TLC proves the stack bound of a visited-set DFS on all graphs with 3 (4) nodes and exhibits the violation without the visited set. Each graph becomes fragment-spread cycles on object / interface / union types (direct, through fields, through inline fragments, with and without __typename) and input-type cycles (non-null, nullable, list edges); plus cycles up to length 6, nesting depth up to 64 (128), interfaces without implementors, self-referential unions, truncated / garbage documents and schemas (SDL and JSON). Every input runs in its own process, which must exit with status 0 and a verdict within 20 s.",
+         "Trusted: TLC; the case builder in tools/c17.py; process exit status as reported by the OS.",
+         "DESIGN.md §5 C17", "model_checking"),
 }
 
 
